@@ -11,6 +11,7 @@ mod c15;
 mod c16;
 mod client;
 mod server;
+mod tlsop;
 
 use std::io::{BufRead, Write};
 
@@ -30,6 +31,7 @@ fn eval(op: &str, args: &[&str]) -> Option<Vec<String>> {
         "argv" => c16::argv(args),
         "envcheck" => c16::envcheck(args),
         "client" => client::client(args),
+        "tls" => tlsop::tls(args),
         "mailparam" => c04::mailparam(args),
         "ehlocmd" => c04::ehlocmd(args),
         "mailstd" => c04::mailstd(args),
